@@ -17,8 +17,17 @@ C09_CLAUSES = {
 }
 
 
+# A page overlap means an event is fetched - and hence forwarded - twice: that breaks C09's "exactly once" and equally
+# C08's "the polling path forwards each fetched event at most once", so both checks report it.
+SHARED_CLAUSES = {"page-gap-or-overlap"}
+
+
 def owner(clause):
     return "C09" if clause in C09_CLAUSES else "C08"
+
+
+def owned_by(clause, pid):
+    return clause in SHARED_CLAUSES or owner(clause) == pid
 
 
 def judge(ctx, family, cases_path):
@@ -45,7 +54,7 @@ def judge(ctx, family, cases_path):
         elif parts[0] == "spec":
             cid = parts[1] if len(parts) > 1 else "?"
             clause = parts[2] if len(parts) > 2 else "?"
-            if owner(clause) != ctx.pid:
+            if not owned_by(clause, ctx.pid):
                 other[clause] = other.get(clause, 0) + 1
                 continue
             ctx.spec_violations.append({"key": clause, "what": ln[:2000],
